@@ -465,7 +465,7 @@ theorem decD_encD_aux (env : Env) (L : EnvLaws env) : ∀ d : Desc,
     · simp only [decD, encD, partialOf, erase]
       rw [ihr (Or.inr hw.2) hn.2 _ r hv]
   | void => intro _ _ v r hv; cases v <;> simp [wt] at hv
-  | skipped => intro _ _ v r _; simp [decD, encD, partialOf, erase]
+  | skipped => intro _ _ v r _; simp [decD, encD, erase]
   | empty d _ => intro _ _ v r hv; cases v <;> simp [wt] at hv; simp [decD, encD, partialOf, erase]
   | custom k =>
     intro _ _ v r hv
@@ -481,5 +481,391 @@ theorem dec_enc (env : Env) (L : EnvLaws env) (d : Desc) (hd : d.wf = true) (hn 
   simp only [decode, encode, List.append_assoc]
   rw [decS_encS env L d hd hn v _ hv]
   exact decD_encD_aux env L d (Or.inl hd) hn v r hv
+
+
+/-! ### what a successful decode consumed (arbitrary bytes) -/
+
+theorem decU64_sound {bs r : Bytes} {x : Nat} (h : decU64 bs = .ok (x, r)) : ∃ u, bs = u ++ r ∧ u.length = 8 ∧ x < 2 ^ 64 := by
+  obtain ⟨u, h1, h2, h3⟩ := decUint_sound h
+  exact ⟨u, h1, by rw [h2, alignedSize_8], by simpa using h3⟩
+
+theorem decCap_sound {bs r : Bytes} {p : Val} (h : decCap bs = .ok (p, r)) :
+    ∃ u n, bs = u ++ r ∧ u.length = 8 ∧ p = .cap n ∧ n ≤ VEC_DECODE_LIMIT := by
+  unfold decCap at h
+  split at h
+  · cases h
+  · rename_i cap r1 h1
+    split at h
+    · cases h
+    · rename_i hle
+      simp only [Except.ok.injEq, Prod.mk.injEq] at h
+      obtain ⟨rfl, rfl⟩ := h
+      obtain ⟨u, hu, hl, _⟩ := decU64_sound h1
+      exact ⟨u, cap, hu, hl, rfl, Nat.le_of_not_lt hle⟩
+
+/-- the static size of a `simple` type is the same for every value or partial value of it -/
+theorem sizeS_simple' (env : Env) : ∀ d : Desc, d.simple = true → ∀ v w,
+    (wt env d v = true ∨ pwt env d v = true) → (wt env d w = true ∨ pwt env d w = true) →
+    sizeS env d v = sizeS env d w := by
+  intro d
+  induction d with
+  | pair a b iha ihb =>
+    intro h v w hv hw
+    simp only [Desc.simple, Bool.and_eq_true] at h
+    cases v <;> simp [wt, pwt] at hv
+    cases w <;> simp [wt, pwt] at hw
+    simp only [sizeS]
+    rw [iha h.1 _ _ (hv.imp And.left And.left) (hw.imp And.left And.left),
+        ihb h.2 _ _ (hv.imp And.right And.right) (hw.imp And.right And.right)]
+  | uint n => intro _ v w _ _; simp [sizeS]
+  | bytesN n => intro _ v w _ _; simp [sizeS]
+  | vecBytes => intro _ v w _ _; simp [sizeS]
+  | unit => intro _ v w _ _; simp [sizeS]
+  | _ => intro h; simp [Desc.simple] at h
+
+theorem decS_sound_aux (env : Env) (L : EnvLaws env) : ∀ d : Desc,
+    (d.wf = true → ∀ bs p r, decS env d bs = .ok (p, r) →
+      ∃ u, bs = u ++ r ∧ u.length = sizeS env d p ∧ pwt env d p = true) ∧
+    (d.wfAlts = true → ∀ w bs p r, decAlt env d w bs = .ok (p, r) →
+      ∃ u, bs = u ++ r ∧ u.length = sizeS env d p ∧ pwt env d p = true) := by
+  intro d
+  induction d with
+  | uint n =>
+    refine ⟨fun _ bs p r h => ?_, fun h => by simp [Desc.wfAlts] at h⟩
+    simp only [decS] at h
+    split at h
+    · cases h
+    · rename_i x r1 h1
+      simp only [Except.ok.injEq, Prod.mk.injEq] at h
+      obtain ⟨rfl, rfl⟩ := h
+      obtain ⟨u, hu, hl, hx⟩ := decUint_sound h1
+      exact ⟨u, hu, by simp [sizeS, hl], by simp [pwt, hx]⟩
+  | bytesN n =>
+    refine ⟨fun _ bs p r h => ?_, fun h => by simp [Desc.wfAlts] at h⟩
+    simp only [decS] at h
+    split at h
+    · cases h
+    · rename_i x r1 h1
+      split at h
+      · cases h
+      · rename_i r2 h2
+        simp only [Except.ok.injEq, Prod.mk.injEq] at h
+        obtain ⟨rfl, rfl⟩ := h
+        obtain ⟨hx, hxl⟩ := read_sound h1
+        obtain ⟨u, hu, hul⟩ := skip_sound h2
+        exact ⟨x ++ u, by rw [hx, hu, List.append_assoc], by simp [sizeS, alignedSize, hxl, hul], by simp [pwt, hxl]⟩
+  | vecBytes =>
+    refine ⟨fun _ bs p r h => ?_, fun h => by simp [Desc.wfAlts] at h⟩
+    simp only [decS] at h
+    obtain ⟨u, n, hu, hl, rfl, hn⟩ := decCap_sound h
+    exact ⟨u, hu, by simp [sizeS, hl], by simp [pwt, hn]⟩
+  | vec d _ =>
+    refine ⟨fun _ bs p r h => ?_, fun h => by simp [Desc.wfAlts] at h⟩
+    simp only [decS] at h
+    obtain ⟨u, n, hu, hl, rfl, hn⟩ := decCap_sound h
+    exact ⟨u, hu, by simp [sizeS, hl], by simp [pwt, hn]⟩
+  | unit =>
+    refine ⟨fun _ bs p r h => ?_, fun h => by simp [Desc.wfAlts] at h⟩
+    simp only [decS, Except.ok.injEq, Prod.mk.injEq] at h
+    obtain ⟨rfl, rfl⟩ := h
+    exact ⟨[], by simp, by simp [sizeS], by simp [pwt]⟩
+  | pair a b iha ihb =>
+    refine ⟨fun hw bs p r h => ?_, fun h => by simp [Desc.wfAlts] at h⟩
+    simp only [Desc.wf, Bool.and_eq_true] at hw
+    simp only [decS] at h
+    split at h
+    · cases h
+    · rename_i va r1 h1
+      split at h
+      · cases h
+      · rename_i vb r2 h2
+        simp only [Except.ok.injEq, Prod.mk.injEq] at h
+        obtain ⟨rfl, rfl⟩ := h
+        obtain ⟨u1, hu1, hl1, hp1⟩ := iha.1 hw.1 _ _ _ h1
+        obtain ⟨u2, hu2, hl2, hp2⟩ := ihb.1 hw.2 _ _ _ h2
+        exact ⟨u1 ++ u2, by rw [hu1, hu2, List.append_assoc], by simp [sizeS, hl1, hl2], by simp [pwt, hp1, hp2]⟩
+  | pre p d ih =>
+    refine ⟨fun hw bs q r h => ?_, fun h => by simp [Desc.wfAlts] at h⟩
+    simp only [Desc.wf, Bool.and_eq_true] at hw
+    simp only [decS] at h
+    split at h
+    · cases h
+    · rename_i p' r1 h1
+      split at h
+      · obtain ⟨u1, hu1, hl1, _⟩ := decU64_sound h1
+        obtain ⟨u2, hu2, hl2, hp2⟩ := ih.1 hw.2 _ _ _ h
+        exact ⟨u1 ++ u2, by rw [hu1, hu2, List.append_assoc], by simp [sizeS, hl1, hl2], by simp [pwt, hp2]⟩
+      · cases h
+  | enum a ih =>
+    refine ⟨fun hw bs q r h => ?_, fun h => by simp [Desc.wfAlts] at h⟩
+    simp only [Desc.wf] at hw
+    simp only [decS] at h
+    split at h
+    · cases h
+    · rename_i w r1 h1
+      obtain ⟨u1, hu1, hl1, _⟩ := decU64_sound h1
+      obtain ⟨u2, hu2, hl2, hp2⟩ := ih.2 hw _ _ _ _ h
+      exact ⟨u1 ++ u2, by rw [hu1, hu2, List.append_assoc], by simp [sizeS, hl1, hl2], by simp [pwt, hp2]⟩
+  | alt k d rest ihd ihr =>
+    refine ⟨fun h => by simp [Desc.wf] at h, fun hw w bs q r h => ?_⟩
+    simp only [Desc.wfAlts, Bool.and_eq_true] at hw
+    simp only [decAlt] at h
+    split at h
+    · split at h
+      · cases h
+      · rename_i v r1 h1
+        simp only [Except.ok.injEq, Prod.mk.injEq] at h
+        obtain ⟨rfl, rfl⟩ := h
+        obtain ⟨u, hu, hl, hp⟩ := ihd.1 hw.1.2 _ _ _ h1
+        exact ⟨u, hu, by simp [sizeS, hl], by simp [pwt, hp]⟩
+    · split at h
+      · cases h
+      · rename_i v r1 h1
+        simp only [Except.ok.injEq, Prod.mk.injEq] at h
+        obtain ⟨rfl, rfl⟩ := h
+        obtain ⟨u, hu, hl, hp⟩ := ihr.2 hw.2 _ _ _ _ h1
+        exact ⟨u, hu, by simp [sizeS, hl], by simp [pwt, hp]⟩
+  | void =>
+    exact ⟨fun h => by simp [Desc.wf] at h, fun _ w bs q r h => by simp [decAlt] at h⟩
+  | skipped =>
+    refine ⟨fun _ bs p r h => ?_, fun h => by simp [Desc.wfAlts] at h⟩
+    simp only [decS, Except.ok.injEq, Prod.mk.injEq] at h
+    obtain ⟨rfl, rfl⟩ := h
+    exact ⟨[], by simp, by simp [sizeS], by simp [pwt]⟩
+  | empty d ih =>
+    refine ⟨fun hw bs p r h => ?_, fun h => by simp [Desc.wfAlts] at h⟩
+    simp only [Desc.wf] at hw
+    simp only [decS] at h
+    split at h
+    · cases h
+    · rename_i q r1 h1
+      simp only [Except.ok.injEq, Prod.mk.injEq] at h
+      obtain ⟨rfl, rfl⟩ := h
+      obtain ⟨u, hu, hl, hp⟩ := ih.1 (simple_wf d hw) _ _ _ h1
+      refine ⟨u, hu, ?_, by simp [pwt]⟩
+      simp only [sizeS]
+      rw [hl]
+      exact sizeS_simple' env d hw _ _ (Or.inr hp) (Or.inl (wt_dflt env d hw))
+  | custom k =>
+    refine ⟨fun _ bs p r h => ?_, fun h => by simp [Desc.wfAlts] at h⟩
+    simp only [decS] at h
+    obtain ⟨u, hu, hl, hp⟩ := (L k).decS_sound _ _ _ h
+    exact ⟨u, hu, by simp [sizeS, hl], by simp [pwt, hp]⟩
+
+theorem decS_sound (env : Env) (L : EnvLaws env) (d : Desc) (hd : d.wf = true) {bs r : Bytes} {p : Val}
+    (h : decS env d bs = .ok (p, r)) : ∃ u, bs = u ++ r ∧ u.length = sizeS env d p ∧ pwt env d p = true :=
+  (decS_sound_aux env L d).1 hd bs p r h
+
+
+theorem decElems_sound (f : Bytes → R (Val × Bytes)) (sz : Val → Nat) (Q : Val → Prop)
+    (hf : ∀ bs a r, f bs = .ok (a, r) → ∃ u, bs = u ++ r ∧ u.length = sz a ∧ Q a) :
+    ∀ n bs l r, decElems f n bs = .ok (l, r) →
+      ∃ u, bs = u ++ r ∧ u.length = (l.map sz).sum ∧ l.length = n ∧ ∀ a ∈ l, Q a := by
+  intro n
+  induction n with
+  | zero =>
+    intro bs l r h
+    simp only [decElems, Except.ok.injEq, Prod.mk.injEq] at h
+    obtain ⟨rfl, rfl⟩ := h
+    exact ⟨[], by simp, by simp, rfl, by simp⟩
+  | succ n ih =>
+    intro bs l r h
+    simp only [decElems] at h
+    split at h
+    · cases h
+    · rename_i a r1 h1
+      split at h
+      · cases h
+      · rename_i as r2 h2
+        simp only [Except.ok.injEq, Prod.mk.injEq] at h
+        obtain ⟨rfl, rfl⟩ := h
+        obtain ⟨u1, hu1, hl1, hq⟩ := hf _ _ _ h1
+        obtain ⟨u2, hu2, hl2, hn, hall⟩ := ih _ _ _ h2
+        refine ⟨u1 ++ u2, by rw [hu1, hu2, List.append_assoc], by simp [hl1, hl2], by simp [hn], ?_⟩
+        intro x hx
+        simp only [List.mem_cons] at hx
+        rcases hx with rfl | hx
+        · exact hq
+        · exact hall x hx
+
+theorem map_id_of_forall {l : List Val} {f : Val → Val} (h : ∀ a ∈ l, f a = a) : l.map f = l := by
+  induction l with
+  | nil => rfl
+  | cons a l ih => simp [h a (by simp), ih (fun x hx => h x (by simp [hx]))]
+
+theorem decD_sound_aux (env : Env) (L : EnvLaws env) : ∀ d : Desc,
+    (d.wf = true ∨ d.wfAlts = true) → ∀ p bs v r, pwt env d p = true → decD env d p bs = .ok (v, r) →
+      ∃ u, bs = u ++ r ∧ u.length = sizeD env d v ∧ sizeS env d v = sizeS env d p ∧
+        wt env d v = true ∧ erase env d v = v := by
+  intro d
+  induction d with
+  | uint n =>
+    intro _ p bs v r hp h
+    cases p <;> simp [pwt] at hp
+    simp only [decD, Except.ok.injEq, Prod.mk.injEq] at h
+    obtain ⟨rfl, rfl⟩ := h
+    exact ⟨[], by simp, by simp [sizeD], rfl, by simp [wt, hp], by simp [erase]⟩
+  | bytesN n =>
+    intro _ p bs v r hp h
+    cases p <;> simp [pwt] at hp
+    simp only [decD, Except.ok.injEq, Prod.mk.injEq] at h
+    obtain ⟨rfl, rfl⟩ := h
+    exact ⟨[], by simp, by simp [sizeD], rfl, by simp [wt, hp], by simp [erase]⟩
+  | vecBytes =>
+    intro _ p bs v r hp h
+    cases p <;> simp [pwt] at hp
+    simp only [decD] at h
+    split at h
+    · cases h
+    · rename_i x r1 h1
+      split at h
+      · cases h
+      · rename_i r2 h2
+        simp only [Except.ok.injEq, Prod.mk.injEq] at h
+        obtain ⟨rfl, rfl⟩ := h
+        obtain ⟨hx, hxl⟩ := read_sound h1
+        obtain ⟨u, hu, hul⟩ := skip_sound h2
+        exact ⟨x ++ u, by rw [hx, hu, List.append_assoc], by simp [sizeD, alignedSize, hxl, hul], by simp [sizeS],
+          by simp [wt, hxl, hp], by simp [erase]⟩
+  | vec d ih =>
+    intro hw p bs v r hp h
+    have hw : d.wf = true := by
+      rcases hw with hw | hw <;> simp [Desc.wf, Desc.wfAlts] at hw; exact hw
+    cases p <;> simp [pwt] at hp
+    rename_i n
+    simp only [decD] at h
+    split at h
+    · cases h
+    · rename_i l r1 h1
+      simp only [Except.ok.injEq, Prod.mk.injEq] at h
+      obtain ⟨rfl, rfl⟩ := h
+      obtain ⟨u, hu, hl, hn, hall⟩ := decElems_sound _ (fun e => sizeS env d e + sizeD env d e)
+        (fun e => wt env d e = true ∧ erase env d e = e) (by
+          intro bs a r hfa
+          split at hfa
+          · cases hfa
+          · rename_i q r2 h2
+            obtain ⟨u1, hu1, hl1, hq⟩ := decS_sound env L d hw h2
+            obtain ⟨u2, hu2, hl2, hs, hwt, her⟩ := ih (Or.inl hw) _ _ _ _ hq hfa
+            exact ⟨u1 ++ u2, by rw [hu1, hu2, List.append_assoc], by simp [hl1, hl2, hs], hwt, her⟩) _ _ _ _ h1
+      have h2 := dvd_sum_map l (fun e => sizeS env d e + sizeD env d e) (fun e he => by
+        obtain ⟨a, b⟩ := size_aligned env L d hw e (hall e he).1
+        exact Nat.dvd_add a b)
+      refine ⟨u, hu, ?_, by simp [sizeS], ?_, ?_⟩
+      · simp only [sizeD, Val.elems_ofList]
+        rw [alignedSize_of_dvd _ h2, hl]
+      · simp only [wt, Val.elems_ofList, Val.isList_ofList, Bool.and_eq_true, List.all_eq_true, decide_eq_true_eq, true_and]
+        exact ⟨fun e he => (hall e he).1, by omega⟩
+      · simp only [erase, Val.elems_ofList]
+        rw [map_id_of_forall (fun a ha => (hall a ha).2)]
+  | unit =>
+    intro _ p bs v r hp h
+    cases p <;> simp [pwt] at hp
+    simp only [decD, Except.ok.injEq, Prod.mk.injEq] at h
+    obtain ⟨rfl, rfl⟩ := h
+    exact ⟨[], by simp, by simp [sizeD], rfl, by simp [wt], by simp [erase]⟩
+  | pair a b iha ihb =>
+    intro hw p bs v r hp h
+    have hw : a.wf = true ∧ b.wf = true := by
+      rcases hw with hw | hw <;> simp [Desc.wf, Desc.wfAlts] at hw; exact hw
+    cases p <;> simp [pwt] at hp
+    simp only [decD] at h
+    split at h
+    · cases h
+    · rename_i va r1 h1
+      split at h
+      · cases h
+      · rename_i vb r2 h2
+        simp only [Except.ok.injEq, Prod.mk.injEq] at h
+        obtain ⟨rfl, rfl⟩ := h
+        obtain ⟨u1, hu1, hl1, hs1, hw1, he1⟩ := iha (Or.inl hw.1) _ _ _ _ hp.1 h1
+        obtain ⟨u2, hu2, hl2, hs2, hw2, he2⟩ := ihb (Or.inl hw.2) _ _ _ _ hp.2 h2
+        exact ⟨u1 ++ u2, by rw [hu1, hu2, List.append_assoc], by simp [sizeD, hl1, hl2], by simp [sizeS, hs1, hs2],
+          by simp [wt, hw1, hw2], by simp [erase, he1, he2]⟩
+  | pre p' d ih =>
+    intro hw p bs v r hp h
+    have hw : d.wf = true := by
+      rcases hw with hw | hw <;> simp [Desc.wf, Desc.wfAlts] at hw; exact hw.2
+    simp only [pwt] at hp
+    simp only [decD] at h
+    obtain ⟨u, hu, hl, hs, hwt, he⟩ := ih (Or.inl hw) _ _ _ _ hp h
+    exact ⟨u, hu, by simp [sizeD, hl], by simp [sizeS, hs], by simp [wt, hwt], by simp [erase, he]⟩
+  | enum a ih =>
+    intro hw p bs v r hp h
+    have hw : a.wfAlts = true := by
+      rcases hw with hw | hw <;> simp [Desc.wf, Desc.wfAlts] at hw; exact hw
+    simp only [pwt] at hp
+    simp only [decD] at h
+    obtain ⟨u, hu, hl, hs, hwt, he⟩ := ih (Or.inr hw) _ _ _ _ hp h
+    exact ⟨u, hu, by simp [sizeD, hl], by simp [sizeS, hs], by simp [wt, hwt], by simp [erase, he]⟩
+  | alt k d rest ihd ihr =>
+    intro hw p bs v r hp h
+    have hw : d.wf = true ∧ rest.wfAlts = true := by
+      rcases hw with hw | hw <;> simp [Desc.wf, Desc.wfAlts] at hw; exact ⟨hw.1.2, hw.2⟩
+    cases p <;> simp [pwt] at hp
+    · simp only [decD] at h
+      split at h
+      · cases h
+      · rename_i x r1 h1
+        simp only [Except.ok.injEq, Prod.mk.injEq] at h
+        obtain ⟨rfl, rfl⟩ := h
+        obtain ⟨u, hu, hl, hs, hwt, he⟩ := ihd (Or.inl hw.1) _ _ _ _ hp h1
+        exact ⟨u, hu, by simp [sizeD, hl], by simp [sizeS, hs], by simp [wt, hwt], by simp [erase, he]⟩
+    · simp only [decD] at h
+      split at h
+      · cases h
+      · rename_i x r1 h1
+        simp only [Except.ok.injEq, Prod.mk.injEq] at h
+        obtain ⟨rfl, rfl⟩ := h
+        obtain ⟨u, hu, hl, hs, hwt, he⟩ := ihr (Or.inr hw.2) _ _ _ _ hp h1
+        exact ⟨u, hu, by simp [sizeD, hl], by simp [sizeS, hs], by simp [wt, hwt], by simp [erase, he]⟩
+  | void => intro _ p bs v r hp h; cases p <;> simp [pwt] at hp
+  | skipped =>
+    intro _ p bs v r hp h
+    simp only [decD, Except.ok.injEq, Prod.mk.injEq] at h
+    obtain ⟨rfl, rfl⟩ := h
+    exact ⟨[], by simp, by simp [sizeD], by simp [sizeS], by simp [wt], by simp [erase]⟩
+  | empty d _ =>
+    intro _ p bs v r hp h
+    simp only [decD, Except.ok.injEq, Prod.mk.injEq] at h
+    obtain ⟨rfl, rfl⟩ := h
+    exact ⟨[], by simp, by simp [sizeD], by simp [sizeS], by simp [wt], by simp [erase]⟩
+  | custom k =>
+    intro _ p bs v r hp h
+    simp only [pwt] at hp
+    simp only [decD] at h
+    obtain ⟨u, hu, hl, hs, hwt⟩ := (L k).decD_sound _ _ _ _ hp h
+    exact ⟨u, hu, by simp [sizeD, hl], by simp [sizeS, hs], by simp [wt, hwt], by simp [erase]⟩
+
+/-- **arbitrary bytes**: a successful decode consumed exactly `size` of the value it returned, and that
+value is a well-typed value with its skipped fields at their defaults -/
+theorem decode_sound (env : Env) (L : EnvLaws env) (d : Desc) (hd : d.wf = true) {bs rest : Bytes} {v : Val}
+    (h : decode env d bs = .ok (v, rest)) :
+    ∃ used, bs = used ++ rest ∧ used.length = size env d v ∧ wt env d v = true ∧ erase env d v = v := by
+  simp only [decode] at h
+  split at h
+  · cases h
+  · rename_i p r1 h1
+    obtain ⟨u1, hu1, hl1, hp⟩ := decS_sound env L d hd h1
+    obtain ⟨u2, hu2, hl2, hs, hwt, he⟩ := decD_sound_aux env L d (Or.inl hd) _ _ _ _ hp h
+    exact ⟨u1 ++ u2, by rw [hu1, hu2, List.append_assoc], by simp [size, hl1, hl2, hs], hwt, he⟩
+
+/-- **fixed point**: re-encoding a decoded value and decoding again gives the same value, consuming everything -/
+theorem dec_fixpoint (env : Env) (L : EnvLaws env) (d : Desc) (hd : d.wf = true) (hn : d.nodup = true)
+    {bs rest : Bytes} {v : Val} (h : decode env d bs = .ok (v, rest)) :
+    decode env d (encode env d v) = .ok (v, []) := by
+  obtain ⟨_, _, _, hwt, he⟩ := decode_sound env L d hd h
+  have := dec_enc env L d hd hn v [] hwt
+  rwa [List.append_nil, he] at this
+
+/-- the encoding determines the value up to the skipped fields -/
+theorem encode_injective (env : Env) (L : EnvLaws env) (d : Desc) (hd : d.wf = true) (hn : d.nodup = true)
+    (v w : Val) (hv : wt env d v = true) (hw : wt env d w = true) (h : encode env d v = encode env d w) :
+    erase env d v = erase env d w := by
+  have h1 := dec_enc env L d hd hn v [] hv
+  have h2 := dec_enc env L d hd hn w [] hw
+  rw [h, h2] at h1
+  simp only [Except.ok.injEq, Prod.mk.injEq, and_true] at h1
+  exact h1.symm
 
 end FuelVerif.Canonical
